@@ -505,6 +505,11 @@ func (px *PathCtx) noteSymbolicAlloc(fr *frame, n sym, elemSize int64) {
 	if budget.sort.W != w {
 		budget = i.resize(budget, budget.sort.W, false, w)
 	}
+	// the same threshold as the native meter (harness api.go): 64 x budget + 1 MiB, so that a
+	// candidate is something the native run can witness
+	if budget.isConst() && w >= 32 {
+		budget = tc.BV(w, 64*budget.c+(1<<20))
+	}
 	es := elemSize
 	if es < 1 {
 		es = 1
@@ -514,7 +519,14 @@ func (px *PathCtx) noteSymbolicAlloc(fr *frame, n sym, elemSize int64) {
 	over := tc.bvcmp(OBvUlt, lim, n.t)
 	if px.check(over) != Unsat {
 		site, stack := i.where(fr)
-		px.addCandidate("untrusted-alloc", "untrusted-alloc", "allocation size taken from input can exceed the bytes received", site, over, stack)
+		// prefer a witness only moderately above the budget (at most three times): the native run
+		// then really performs the allocation and its meter sees it, instead of dying in makeslice
+		witness := over
+		moderate := tc.And(over, tc.bvcmp(OBvUle, n.t, tc.bvbin(OBvAdd, tc.bvbin(OBvAdd, lim, lim), tc.bvbin(OBvAdd, lim, tc.BV(w, 1)))))
+		if !tc.bvcmp(OBvUlt, tc.bvbin(OBvAdd, lim, lim), lim).isTrue() && px.check(moderate) == Sat {
+			witness = moderate
+		}
+		px.addCandidate("untrusted-alloc", "untrusted-alloc", "allocation size taken from input can exceed the bytes received", site, witness, stack)
 		// continue only with sizes inside the budget
 		if px.check(tc.Not(over)) == Unsat {
 			px.abort(stViolatedAlways, "allocation always exceeds the budget")
